@@ -427,6 +427,24 @@ func c03r3(c *Ctx, id string) {
 	cp := "param(" + cv.Params[1].Name() + ")"
 	lk := "recv.collectionIDs[" + cp + "]"
 	okc := len(crets) == 2 && crets[0] == "false:"+lk+"#1 → const(\"_default\")" && crets[1] == "true:"+lk+"#1 → "+lk+"#0"
+	if !okc {
+		// … or through a lookup-or-default helper: `return valueOr(so.collectionIDs, collectionID, DefaultCollectionName)`
+		nRet := 0
+		allInstrs(cv, func(in ssa.Instruction) {
+			r, ok := in.(*ssa.Return)
+			if !ok || len(r.Results) != 1 {
+				return
+			}
+			nRet++
+			if call, isCall := unwrap(r.Results[0]).(*ssa.Call); isCall && len(guardsOf(in.Block())) == 0 {
+				a := call.Common().Args
+				if isLookupOrDefault(w, call.Common().StaticCallee()) && len(a) == 3 && w.Origin(a[0]) == "recv.collectionIDs" && w.Origin(a[1]) == cp && w.Origin(a[2]) == "const(\"_default\")" {
+					okc = true
+				}
+			}
+		})
+		okc = okc && nRet == 1
+	}
 	c.Check(okc, id, "collection-name@"+fname(cv), cv.Pos(), "collection name: "+strings.Join(crets, " ; "), "collection name is not (configured entry | \"_default\"): "+strings.Join(crets, " ; "))
 }
 
@@ -472,7 +490,15 @@ func c03r4(c *Ctx, id string) {
 			if v, has := tab["CollectionName"]; has {
 				got := w.Origin(v)
 				want := "call((*couchbase.observer).convertToCollectionName)(recv, " + e + ".CollectionID)"
-				c.Check(got == want, id, construct+":collection", a.Pos(), "CollectionName ← "+got, "CollectionName ← "+got+", expected "+want)
+				okName := got == want
+				if call, isCall := unwrap(v).(*ssa.Call); isCall && !okName {
+					// (the converter may be a one-line forwarder that provenance reads through: judge the call itself)
+					cvf := w.Method("couchbase", oi.typ.Obj().Name(), "convertToCollectionName")
+					if cvf != nil && call.Common().StaticCallee() == cvf && len(call.Common().Args) == 2 && w.Origin(call.Common().Args[0]) == "recv" && w.Origin(call.Common().Args[1]) == e+".CollectionID" {
+						okName = true
+					}
+				}
+				c.Check(okName, id, construct+":collection", a.Pos(), "CollectionName ← "+got, "CollectionName ← "+got+", expected "+want)
 			}
 			if v, has := tab["EventTime"]; has {
 				got := w.Origin(v)
